@@ -22,7 +22,9 @@ use std::process::{Child, Command, Stdio};
 use std::sync::mpsc;
 use std::sync::{Arc, Mutex};
 use std::time::{Duration, Instant};
-use xml_dom::{AsNode, Attr, CharacterData, Document, DocumentType, Node, PrettyPrint, XmlNode};
+use xml_dom::{
+    AsNode, Attr, CharacterData, Document, DocumentType, Entity, Node, Notation, PrettyPrint, XmlNode,
+};
 
 pub const STACK_BYTES: usize = 8 * 1024 * 1024;
 const TEXT_INLINE_MAX: usize = 4000;
@@ -49,15 +51,17 @@ fn walk(doc: &xml_dom::XmlDocument) -> usize {
     let mut stack: Vec<XmlNode> = vec![doc.as_node()];
     if let Some(dt) = doc.doc_type() {
         let _ = dt.name();
+        // declared entities and notations are visited like every other node (name, value, children)
         for e in dt.entities().iter() {
-            let _ = e.node_name();
-            let _ = e.node_value();
-            seen += 1;
+            let _ = e.public_id();
+            let _ = e.system_id();
+            let _ = e.notation_name();
+            stack.push(e.as_node());
         }
         for n in dt.notations().iter() {
-            let _ = n.node_name();
-            let _ = n.node_value();
-            seen += 1;
+            let _ = n.public_id();
+            let _ = n.system_id();
+            stack.push(n.as_node());
         }
     }
     while let Some(n) = stack.pop() {
